@@ -489,7 +489,7 @@ func (p *Parser) parseWhere(stmt *SelectStatement) error {
 	}
 
 	// Set max iterations limit to prevent infinite loops
-	maxIterations := 100
+	maxIterations := len(p.input) + 1 // every token consumes at least one byte: a longer clause is not a syntax error
 	iterations := 0
 
 	for {
@@ -561,7 +561,7 @@ func (p *Parser) parseWindowFunction(stmt *SelectStatement, winType string) erro
 	}
 
 	var params []any
-	maxIterations := 100
+	maxIterations := len(p.input) + 1 // every token consumes at least one byte: a longer clause is not a syntax error
 	iterations := 0
 
 	// Parse parameters until we find the closing parenthesis
@@ -994,7 +994,7 @@ func (p *Parser) parseGroupBy(stmt *SelectStatement) error {
 	}
 
 	// 设置最大次数限制，防止无限循环
-	maxIterations := 100
+	maxIterations := len(p.input) + 1 // every token consumes at least one byte: a longer clause is not a syntax error
 	iterations := 0
 
 	var limitToken *Token // 保存LIMIT token以便后续处理
@@ -1095,7 +1095,7 @@ func (p *Parser) parseWith(stmt *SelectStatement) error {
 	p.lexer.NextToken() // 跳过(
 
 	// 设置最大次数限制，防止无限循环
-	maxIterations := 100
+	maxIterations := len(p.input) + 1 // every token consumes at least one byte: a longer clause is not a syntax error
 	iterations := 0
 
 	for p.lexer.peekChar() != ')' {
@@ -1524,7 +1524,7 @@ func (p *Parser) parseHaving(stmt *SelectStatement) error {
 	}
 
 	// 设置最大次数限制，防止无限循环
-	maxIterations := 100
+	maxIterations := len(p.input) + 1 // every token consumes at least one byte: a longer clause is not a syntax error
 	iterations := 0
 
 	var conditions []string
